@@ -109,9 +109,10 @@ JudgeRun(ps, cs, inp, dev) ==
        ELSE IF cs.init THEN V(FALSE, "initial", "initial:read-of-unassigned-variable:at=" \o at, sb.rdundef \o " shapes" \o shapes)
        ELSE V(TRUE, "unjudged", "tgt-reads-unassigned-without-init", sb.rdundef)
   ELSE IF sb.status = "error" THEN
-       V(FALSE, "target-error", "target-error:" \o sb.why \o ":at=" \o bp.code[sb.epc].op \o
+       VS(FALSE, "target-error", "target-error:" \o sb.why \o ":at=" \o bp.code[sb.epc].op \o
                          (IF bp.code[sb.epc].op = "JF" THEN "-" \o bp.code[sb.epc].sk \o ":src-has=" \o shapes
-                          ELSE IF bp.code[sb.epc].op = "RUN" THEN "-" \o bp.code[sb.epc].x ELSE ""), "after " \o ToString(Len(tobs)) \o " events; shapes" \o shapes)
+                          ELSE IF bp.code[sb.epc].op = "RUN" THEN "-" \o bp.code[sb.epc].x ELSE ""), "after " \o ToString(Len(tobs)) \o " events; shapes" \o shapes,
+          bp.code[sb.epc].op)
   ELSE IF sb.status = "run" THEN
        V(FALSE, "halt", "halt:target-spins-in=" \o SpinWhere(bp.code[sb.pc]) \o
                         (IF SpinWhere(bp.code[sb.pc]) = "LOOP-block" /\ \E q \in 1..Len(dp.code) : dp.code[q].op = "JF" /\ dp.code[q].sk = "IF-ELSEIF-noELSE"
@@ -150,7 +151,7 @@ Situate(cs, ps, vd) ==
   ELSE IF ~ConvInReadInputSubscript(ps.dp.code) THEN vd
   ELSE IF \/ (vd.clause = "parses" /\ ps.tln >= 1 /\ ps.tln <= Len(cs.out) /\ LineHas(cs.out[ps.tln], {"READ", "INPUT"}))
           \/ (vd.clause = "call-seq" /\ vd.ssk = "lost")
-          \/ (vd.clause = "obs" /\ vd.ssk \in {"READ", "INPUT"})
+          \/ (vd.clause \in {"obs", "target-error"} /\ vd.ssk \in {"READ", "INPUT"})
        THEN [vd EXCEPT !.key = "lost-call:src=convertible-function-in-READ-INPUT-subscript", !.detail = vd.key \o " | " \o @]
        ELSE vd
 
